@@ -22,6 +22,14 @@ pub struct FbCase {
     pub code_b: u32,
     /// inner latency (ms) so that results are not all immediate
     pub lat: u64,
+    /// error code of the failing backup service (either parity, so that the handle predicate may
+    /// accept or refuse it)
+    #[serde(default = "default_backup_code")]
+    pub backup_code: u32,
+}
+
+fn default_backup_code() -> u32 {
+    77
 }
 
 fn case_strategy(_tier: Tier) -> BoxedStrategy<FbCase> {
@@ -33,8 +41,9 @@ fn case_strategy(_tier: Tier) -> BoxedStrategy<FbCase> {
         1u32..50,
         50u32..99,
         0u64..3,
+        100u32..200,
     )
-        .prop_map(|(req_id, req_key, req_tag, value_serial, code_a, code_b, lat)| FbCase {
+        .prop_map(|(req_id, req_key, req_tag, value_serial, code_a, code_b, lat, backup_code)| FbCase {
             req_id,
             req_key,
             req_tag,
@@ -42,6 +51,7 @@ fn case_strategy(_tier: Tier) -> BoxedStrategy<FbCase> {
             code_a,
             code_b,
             lat,
+            backup_code,
         })
         .boxed()
 }
@@ -87,9 +97,10 @@ async fn run_grid(case: &FbCase) -> (Vec<String>, usize, Vec<serde_json::Value>)
                     _ => Step::err(lat, code_b),
                 });
                 let backup_fail = strat == 5;
+                let backup_code = case.backup_code;
                 let backup = Scripted::new(log.clone(), BACKUP_BASE, move |_, _, _| {
                     if backup_fail {
-                        Step::err(lat, 77)
+                        Step::err(lat, backup_code)
                     } else {
                         Step::ok(lat)
                     }
@@ -258,7 +269,7 @@ async fn run_grid(case: &FbCase) -> (Vec<String>, usize, Vec<serde_json::Value>)
                         (5, Err(FallbackError::FallbackFailed(e))) => {
                             backup_enters.len() == 1
                                 && backup_enters[0].1 == req
-                                && e.code == 77
+                                && e.code == backup_code
                                 && e.serial == backup_enters[0].0
                         }
                         (6, Err(FallbackError::Inner(e))) => e.code == code + 100 && e.serial == inner_serial,
@@ -312,7 +323,7 @@ impl Property for C17 {
         r
     }
     fn rule(&self) -> String {
-        "every generated case (request id/key/tag, value payload, two error codes, inner latency 0-2 ms) enumerates the complete grid {value, value_fn, from_error, from_request_error, backup service ok, backup service failing, exception} x {no predicate, accept all, refuse all, accept odd codes} x {inner ok, error a, error b} = 84 cells (exhaustive for the finite part). Oracle: pure reference function: success or refused error => inner result unchanged (serial/code identity) and no strategy or backup invocation; handled error => exactly the strategy's value for this request and this error (value identity, error encoded in the response, request echoed, backup entered once with this request, FallbackFailed carrying the backup's error, transformed error); inner service entered exactly once with the identical request. Non-trivial: every case contains all handled-error cells; distinct by hash of the payloads".into()
+        "every generated case (request id/key/tag, value payload, two inner error codes and a backup error code of either parity, inner latency 0-2 ms) enumerates the complete grid {value, value_fn, from_error, from_request_error, backup service ok, backup service failing, exception} x {no predicate, accept all, refuse all, accept odd codes} x {inner ok, error a, error b} = 84 cells (exhaustive for the finite part). Oracle: pure reference function: success or refused error => inner result unchanged (serial/code identity) and no strategy or backup invocation; handled error => exactly the strategy's value for this request and this error (value identity, error encoded in the response, request echoed, backup entered once with this request, FallbackFailed carrying the backup's error, transformed error); inner service entered exactly once with the identical request. Non-trivial: every case contains all handled-error cells; distinct by hash of the payloads".into()
     }
     fn assumptions(&self) -> Vec<String> {
         vec!["one request per grid cell; payloads are drawn, the grid is enumerated".into()]
